@@ -130,6 +130,14 @@ func (d *Downstream) closeWithError(ctx context.Context, cause error) (err error
 	resp, err := d.wireConn.SendDownstreamCloseRequest(ctx, &message.DownstreamCloseRequest{
 		StreamID: d.ID,
 	})
+	// クローズ要求の送信に失敗した場合でも、ストリームが閉じられたことを通知します。
+	defer d.eventDispatcher.addHandler(func() {
+		d.Config.ClosedEventHandler.OnDownstreamClosed(&DownstreamClosedEvent{
+			Config: d.Config,
+			State:  *d.State(),
+			Err:    cause,
+		})
+	})
 	if err != nil {
 		return errors.Errorf("failed to SendDownstreamCloseRequest: %w", err)
 	}
@@ -141,14 +149,6 @@ func (d *Downstream) closeWithError(ctx context.Context, cause error) (err error
 			ReceivedMessage: resp,
 		}
 	}
-
-	defer d.eventDispatcher.addHandler(func() {
-		d.Config.ClosedEventHandler.OnDownstreamClosed(&DownstreamClosedEvent{
-			Config: d.Config,
-			State:  *d.State(),
-			Err:    cause,
-		})
-	})
 
 	return nil
 }
